@@ -9,6 +9,7 @@ func init() {
 		c.Rule(vfCoreRule)
 		c.Assume("raw message mode: a message has at most rcv_wnd fragments (documented KCP limit; the session layer never fragments)")
 		vfC01core(c)
+		vfC01sess(c)
 	})
 	hx.Register("C03", vfC03)
 	hx.Register("C04", func(c *hx.Ctx) {
